@@ -132,19 +132,25 @@ def has_metric(ti, metric, j, n):
     return j < n - 1 or n == 1
 
 
-def build_store(records):
-    """records: {task index: list of (value, is_normal, success)}"""
+def build_store(records, interleaved=False):
+    """records: {task index: list of (value, is_normal, success)}; interleaved: the records of the tasks arrive round-robin (tasks of a
+    parallel element whose samples are stored in rounds) instead of task by task"""
     e = env()
     m = e["metrics"]
     store = m.InMemoryMetricsStore(e["cfg"])
     store.open("verif-race", RACE_TS, "verif", "c", "defaults", create=True)
     k = 0
-    for ti, recs in records.items():
+    order = [(ti, j) for ti, recs in records.items() for j in range(len(recs))]
+    stamp = {x: i + 1 for i, x in enumerate(order)}  # time stamps do not depend on the arrival order
+    if interleaved:
+        order.sort(key=lambda x: (x[1], x[0]))
+    poss = {ti: normal_pos(recs) for ti, recs in records.items()}
+    for ti, j in order:
         name, opname, optype = TASKS[ti]
-        pos = normal_pos(recs)
-        for j, (value, normal, success) in enumerate(recs):
+        pos = poss[ti]
+        for j, (value, normal, success) in [(j, records[ti][j])]:
             st = m.SampleType.Normal if normal else m.SampleType.Warmup
-            k += 1
+            k = stamp[(ti, j)]
             meta = {"success": success}
             if ti == 0:
                 # a dependent sub-request of a composite operation: recorded under the same task with the sub-request's own operation
@@ -237,9 +243,9 @@ def compare_task(entry, exp, all_zero_thr):
     return None
 
 
-def results_for(records):
+def results_for(records, interleaved=False):
     e = env()
-    store = build_store(records)
+    store = build_store(records, interleaved)
     race = e["metrics"].Race(
         "2.12.0", None, "verif", "verif-race", RACE_TS, "benchmark-only", {}, e["track"], {}, e["challenge"], "defaults", {}, {},
     )
@@ -282,6 +288,15 @@ def check_case(records, res, roundtrip=True):
                 xx, yy = numbers(x), numbers(y)
                 if repr(xx) != repr(yy):
                     v = ("warmup-influences-result", f"task {x['task']}: with warm-up records {xx}, without {yy}")
+                    break
+        if v is None and roundtrip and sum(1 for recs in records.values() if recs) >= 2:
+            # differential: the order in which the records of different tasks reached the store is irrelevant
+            gs3, _ = results_for(records, interleaved=True)
+            a, b = gs.as_dict()["op_metrics"], gs3.as_dict()["op_metrics"]
+            for x, y in zip(a, b):
+                if repr(x) != repr(y):
+                    key = next((k for k in x if repr(x[k]) != repr(y.get(k))), None)
+                    v = ("result-depends-on-record-order", f"task {x['task']}: {key} is {x.get(key)} with the records stored task by task, {y.get(key)} with the tasks' records interleaved")
                     break
         if v is None and roundtrip:
             m = e["metrics"]
